@@ -761,6 +761,7 @@ fn lifetime(l: &mut L1, seed: u64, ctx: &RunCtx, c07_focus: bool) -> Result<(), 
 /// (key, nonce) pair repeats
 fn counter_limit(l: &mut L1, p: &mut Pair, log: &mut SealLog) -> Result<(), Violation> {
     let below = 1 + l.ch.choose("below_limit", 40) as u64;
+    let ticking = l.ch.chance("ticks_near_limit", 500);
     let cur = p.a.peer.as_ref().and_then(|o| o.pc.verif_core().map(|c| c.verif_send_nonce()));
     let mut n = match cur {
         Some(n) => n,
@@ -801,13 +802,22 @@ fn counter_limit(l: &mut L1, p: &mut Pair, log: &mut SealLog) -> Result<(), Viol
         } else if !opened {
             return Err(Violation::new("counter-limit", "datagram-below-56-bit-limit-rejected", format!("seal #{} after placement: counter still fits 56 bits but the peer rejected the datagram", i)));
         }
+        // housekeeping between the seals must not bring the counter back (rotation messages a tick emits are not
+        // delivered: the key under test stays the sending key)
+        if ticking && l.ch.chance("tick_near_limit", 300) {
+            let who = if l.ch.chance("tick_sender", 700) { 'A' } else { 'B' };
+            let _ = p.tick(who);
+            log.absorb(l, p)?;
+            l.count("c04_ticks_near_56_bit_limit");
+        }
     }
     Ok(())
 }
 
 // ================================================================ C06 (cipher negotiation)
 
-pub const SPEED_GRID: [f32; 6] = [0.0, 1.0, 50.0, 50.0, 400.0, 3.4e38];
+// whole numbers, a tie, the extremes, and fractional values less than one apart (measured speeds are never whole)
+pub const SPEED_GRID: [f32; 12] = [0.0, 1.0, 50.0, 50.0, 400.0, 3.4e38, 100.2, 100.4, 99.6, 100.5, 0.4, 0.6];
 const NAMES: [&str; 3] = ["AES128", "AES256", "CHACHA20"];
 
 #[derive(Clone, Debug, PartialEq)]
